@@ -70,7 +70,10 @@ LegalLine(n, pv, i) == IF i > Len(pv) THEN TRUE
                        ELSE LET S == KidByMove(n, pv[i]) IN
                             S # {} /\ LegalLine(n.k[CHOOSE j \in S : TRUE], pv, i+1)
 SoundPV(cfg, n, d, pv) ==
-  IF n.d = 1 \/ n.n = 0 \/ d = 0 \/ ~HasExplored(n) THEN pv = <<>>
+  \* a root at which a draw can already be claimed is worth 0 whatever is played: any legal
+  \* move (or none) is a sound variation
+  IF n.d = 1 THEN pv = <<>> \/ (Len(pv) = 1 /\ d >= 1 /\ KidByMove(n, pv[1]) # {})
+  ELSE IF n.n = 0 \/ d = 0 \/ ~HasExplored(n) THEN pv = <<>>
   ELSE /\ Len(pv) >= 1 /\ Len(pv) <= d
        /\ LegalLine(n, pv, 1)
        /\ LET S == KidByMove(n, pv[1]) IN
